@@ -77,6 +77,10 @@ pub struct Workload {
     pub entry: u8,
     /// per-mille rate of transient read faults; runs with a non-zero rate are not judged
     pub transient_pm: u16,
+    /// include files that are (also) included from inside a nested `(mod ...)` expression
+    /// in the main body
+    #[serde(default)]
+    pub nested_mod: Vec<usize>,
 }
 
 fn dir_path(d: u8) -> String {
@@ -128,6 +132,11 @@ pub fn render_main(w: &Workload) -> String {
         match r {
             Ref::Inc { i, .. } => uses.push(format!("K{}", i)),
             Ref::Embed { .. } => uses.push(format!("E0_{}", k)),
+        }
+    }
+    for i in w.nested_mod.iter() {
+        if let Some(inc) = w.incs.get(*i) {
+            uses.push(format!("(mod (Z) (include {}) (c Z K{}))", inc.name, i));
         }
     }
     let mut body = String::from("()");
@@ -328,6 +337,18 @@ pub fn generate(rng: &mut Rng, thorough: bool) -> Workload {
         let j = rng.below(i as u64 + 1) as usize;
         main_refs.swap(i, j);
     }
+    // an include file that is reachable only from inside a nested `(mod ...)` expression
+    let mut nested_mod = Vec::new();
+    if rng.chance(1, 4) {
+        incs.push(Inc {
+            name: if rng.chance(1, 2) { "nm.clinc".to_string() } else { "sub/nm.clinc".to_string() },
+            copies: gen_copies(rng, ndirs, false),
+            refs: vec![],
+        });
+        nested_mod.push(incs.len() - 1);
+    } else if ninc > 0 && rng.chance(1, 8) {
+        nested_mod.push(rng.below(ninc as u64) as usize);
+    }
     Workload {
         sigil: rng.below(SIGILS.len() as u64) as u8,
         ndirs,
@@ -337,6 +358,7 @@ pub fn generate(rng: &mut Rng, thorough: bool) -> Workload {
         main_refs,
         entry: rng.below(4) as u8,
         transient_pm: if rng.chance(1, 10) { 150 } else { 0 },
+        nested_mod,
     }
 }
 
@@ -586,9 +608,16 @@ impl Policy for C18Policy {
                     Ref::Embed { d } => self.w.datas[*d].name.as_str(),
                 })
                 .collect();
-            self.reads
+            let nested: Vec<&str> = self
+                .w
+                .nested_mod
                 .iter()
-                .any(|p| !direct.iter().any(|d| p.ends_with(&format!("/{}", d))))
+                .filter_map(|i| self.w.incs.get(*i).map(|x| x.name.as_str()))
+                .collect();
+            self.reads.iter().any(|p| {
+                !direct.iter().any(|d| p.ends_with(&format!("/{}", d)))
+                    || nested.iter().any(|d| p.ends_with(&format!("/{}", d)))
+            })
         };
         let embed_read = self
             .reads
@@ -716,6 +745,7 @@ pub fn run_one(w: &Workload, tape: &mut Tape, entropy_seed: u64) -> Result<RunRe
         probes: policy.probes.clone(),
         panics: out.panics,
         detail,
+        extra_keys: vec![],
     })
 }
 
@@ -742,6 +772,12 @@ fn drop_inc(w: &Workload, i: usize) -> Workload {
     fix(&mut c.main_refs);
     for inc in c.incs.iter_mut() {
         fix(&mut inc.refs);
+    }
+    c.nested_mod.retain(|j| *j != i);
+    for j in c.nested_mod.iter_mut() {
+        if *j > i {
+            *j -= 1;
+        }
     }
     c
 }
@@ -843,6 +879,11 @@ impl Prop for C18 {
         if w.transient_pm > 0 {
             let mut c = w.clone();
             c.transient_pm = 0;
+            out.push(c);
+        }
+        for k in 0..w.nested_mod.len() {
+            let mut c = w.clone();
+            c.nested_mod.remove(k);
             out.push(c);
         }
         if w.entry != 0 {
